@@ -636,8 +636,12 @@ func (h *httpServerHandler) handleGet(ctx context.Context, w http.ResponseWriter
 	<-connCtx.Done()
 
 	// Clean up connection
+	// Remove only this stream: after a reconnect the table already holds the
+	// newer stream of the session, which must stay.
 	h.getSSEConnectionsLock.Lock()
-	delete(h.getSSEConnections, session.GetID())
+	if h.getSSEConnections[session.GetID()] == conn {
+		delete(h.getSSEConnections, session.GetID())
+	}
 	h.getSSEConnectionsLock.Unlock()
 	h.logger.Infof("GET SSE connection closed, session ID: %s", session.GetID())
 }
